@@ -179,5 +179,69 @@ def r06_3(ctx):
     return r
 
 
+UNAUTH_READS_OK = {
+    "transaction_id": "echoed in the response; selects nothing",
+    "use_candidate": "the nomination flag: its effect sites are the R06.1 known findings",
+}
+
+
+def _msg_params(ctx, name):
+    """names of the parameters of (the async fn behind) `name` whose type is the decoded STUN message"""
+    outer = name.split("::{closure")[0]
+    ob = ctx.body(outer)
+    return {ob.locals[i].get("n") for i in range(1, ob.argc + 1) if "StunDecoded" in ob.locals[i]["ty"]}
+
+
+def r06_4(ctx):
+    """what an inbound Binding request can influence. The request handlers act before any credential check (R06.1:
+    known findings), so every field of the decoded message they read is attacker-chosen input to the ICE state. The
+    fields read today are frozen; a handler that starts to read a further attribute (a PRIORITY that ranks the
+    learned peer-reflexive candidate, a mapped address, ...) without being cut by a message-integrity verification
+    gives a stranger a new lever - e.g. a priority that lets a forged USE-CANDIDATE displace the nominated pair."""
+    r = RuleResult("R06.4", "K3", "the unauthenticated request handlers read only the listed message fields")
+    adt = [a for n, a in ctx.facts.adts.items() if n.endswith("stun::StunDecoded")]
+    if not adt:
+        raise core.CheckerError("R06.4: StunDecoded type not found")
+    fields = {x["n"] for x in adt[0]["variants"][0]["fields"]}
+    n = 0
+    for name in (REQ, TCPNOM):
+        b = ctx.body(name)
+        r.scope.append(name)
+        params = _msg_params(ctx, name)
+        g = core.guard_edges(b, _authenticated_edge)
+
+        def from_msg(x):
+            return x[0] == "field" and x[2] in fields and mir.has(x[1], lambda y: (y[0] in ("arg", "var") and y[1] in params) or
+                                                                   (y[0] == "field" and y[2] in params))
+        seen = {}
+        for bi, blk in enumerate(b.blocks):
+            if bi in b.cleanup:
+                continue
+            terms = []
+            if blk["t"]["k"] == "switch":
+                terms.append(b.switch_info(bi)[0])
+            elif blk["t"]["k"] == "call":
+                terms += [b.term_operand(a) for a in blk["t"]["a"]]
+            for s_ in blk["s"]:
+                if s_["k"] == "as":
+                    terms.append(b.term_rvalue(s_["rv"]))
+            for t in terms:
+                for x in mir.walk(t):
+                    if from_msg(x):
+                        seen.setdefault(x[2], bi)
+        for fld, bi in sorted(seen.items()):
+            n += 1
+            if fld in UNAUTH_READS_OK:
+                r.ok({"handler": name.split("::")[-2], "field": fld, "why": UNAUTH_READS_OK[fld]})
+            elif g and core.k1(b, [bi], g)[bi] is None:
+                r.ok({"handler": name.split("::")[-2], "field": fld, "cut_by": "message-integrity verification"})
+            else:
+                r.violate(name, "read:msg.%s" % fld, b.where(bi),
+                          "the request handler now reads `%s` of a Binding request whose USERNAME / MESSAGE-INTEGRITY were never verified: "
+                          "a value chosen by any sender reaches the ICE state" % fld)
+    r.need("message fields read by the request handlers", n, 2)
+    return r
+
+
 def run(ctx):
-    return [r06_1(ctx), r06_2(ctx), r06_3(ctx)]
+    return [r06_1(ctx), r06_2(ctx), r06_3(ctx), r06_4(ctx)]
